@@ -17,6 +17,12 @@ type handler func(args []int) []int
 
 var handlers = map[string]handler{}
 
+// libOut carries the answers of library functions (time.Parse, url.Parse, html.ParseFragment ...)
+// that the Coq models take as oracles; it is printed as "<id> L ..." before the result line.
+var libOut []int
+
+func emitLib(toks ...int) { libOut = append(libOut, toks...) }
+
 func register(name string, h handler) { handlers[name] = h }
 
 type reader struct {
@@ -118,7 +124,17 @@ func main() {
 			fmt.Fprintf(w, "%s E bad-token\n", id)
 			continue
 		}
+		libOut = libOut[:0]
 		res, p := runCase(h, args)
+		if len(libOut) > 0 {
+			w.WriteString(id)
+			w.WriteString(" L")
+			for _, v := range libOut {
+				w.WriteByte(' ')
+				w.WriteString(strconv.Itoa(v))
+			}
+			w.WriteByte('\n')
+		}
 		if p != "" {
 			fmt.Fprintf(w, "%s P %s\n", id, p)
 			continue
